@@ -107,21 +107,15 @@ LIBRARY = {
         'builtins.int': ['ValueError'], 'builtins.float': ['ValueError'],
         'builtins.open': ['FileNotFoundError', 'OSError'],
         'builtins.next': ['StopIteration'],            # refined: see engine min_yields
-        'builtins.max': ['ValueError'], 'builtins.min': ['ValueError'],   # empty sequence (1-argument form)
         'method:index': ['ValueError'], 'method:encode': ['UnicodeEncodeError'],
         'method:decode': ['UnicodeDecodeError'],
-        'method:remove': ['ValueError'],                # KeyError instead when the receiver is a set
         'sys.exit': ['SystemExit'], 'builtins.exit': ['SystemExit'],
         'random.sample': ['ValueError'],               # + TypeError when the population is a generator/set (py>=3.11)
-        'random.randint': ['ValueError'], 'random.randrange': ['ValueError'], 'random.choice': ['IndexError'],
+        'random.randint': ['ValueError'], 'random.randrange': ['ValueError'],
         'subprocess.Popen': ['OSError', 'FileNotFoundError'],
         'subprocess.check_output': ['CalledProcessError', 'OSError', 'FileNotFoundError'],
-        'tempfile.NamedTemporaryFile': ['OSError'], 'tempfile.mkstemp': ['OSError'],
-        'os.unlink': ['OSError'], 'os.remove': ['OSError'],
-        'networkx.random_regular_graph': ['NetworkXError'],
-        'networkx.read_gml': ['NetworkXError'], 'networkx.write_gml': ['NetworkXError'],
+        'networkx.read_gml': ['NetworkXError'],
         'networkx.nx_pydot.read_dot': ['TypeError'],   # as the code's own comment says
-        'networkx.convert_node_labels_to_integers': ['TypeError'],
         'method:remove_node': ['NetworkXError'],
         # tuple unpacking of a non-literal right-hand side: ValueError (arity)   -> pseudo callee
         '<unpack>': ['ValueError'],
@@ -129,6 +123,11 @@ LIBRARY = {
         # -h/--help/--version exit through SystemExit; exceptions of custom Action.__call__ propagate,
         # exceptions ArgumentTypeError/TypeError/ValueError of `type=` callables become parser.error
         '<parse_args>': ['SystemExit'],
+    },
+    # library preconditions: callee -> (i, j, Exc): raises Exc unless `arg_i < arg_j` (two local names) has been
+    # established on every path to the call by an assert / an if-raise guard in the same function
+    'raises_unless_lt': {
+        'networkx.random_regular_graph': (0, 1, 'NetworkXError'),   # networkx: "the 0 <= d < n inequality must be satisfied"
     },
     # library exception classes: name -> base
     'exception_bases': {
@@ -146,9 +145,13 @@ LIBRARY = {
 # ----------------------------------------------------------------------------------------------
 NARROWED = [
     ('C18', 'value hazards',
-     'IndexError / ZeroDivisionError / AttributeError / TypeError from operators, KeyError of a subscript '
-     'whose receiver is not a dict visible in the same function: their decision needs values; they are the '
-     'safety hazards of pyvc (DESIGN 2.1) and the argv grammar of the bounded tier, not effect clauses.'),
+     'IndexError / ZeroDivisionError / AttributeError / TypeError from operators; emptiness and membership '
+     'hazards (max()/min()/random.choice of an empty sequence, list.remove/set.remove of an absent element, '
+     'next() on a generator EXPRESSION, KeyError of a dict that is filled dynamically or lives at module level '
+     'and is indexed by a parameter): their decision needs values; they are the safety hazards of pyvc '
+     '(DESIGN 2.1) and the argv grammar of the bounded tier, not effect clauses.  KeyError IS modelled for a '
+     'local dict literal with constant keys (cli: comment_char[output_format]); StopIteration IS modelled for '
+     'next() on a repository generator function (least number of yields before it can finish) and on unknown iterators.'),
     ('C18', 'assert',
      'assert statements reachable from cli() whose AssertionError is not caught locally are value '
      'conditions (internal consistency checks); they are counted and listed as ASSUMED-to-hold, the '
@@ -164,6 +167,9 @@ NARROWED = [
     ('C18', 'stream I/O',
      'read()/write()/readlines() on an already open stream are assumed not to raise (BrokenPipe/IOError are '
      'caught in main() anyway).'),
+    ('C20', 'environment failures',
+     'creating / unlinking a temporary file is assumed not to fail (no temp directory, disk full): outside the '
+     'quantifier of the property (solvers and their output are demonic, the file system is not).'),
     ('C19', 'str/number augmented assignment',
      '`x[k] += <str or number expression>` rebinds the slot (immutable element); only the container x is written.'),
     ('C19', 'stream I/O is not a frame write', 'writing to a file object argument is not a mutation of an input.'),
@@ -183,9 +189,48 @@ NARROWED = [
 
 # ----------------------------------------------------------------------------------------------
 # WAIVERS: artefacts of over-approximation, each anchored to source text and reasoned
-#   (function id glob, effect kind, what glob, anchor text that must occur in the function, reason)
+#   (contracted function id glob, effect kind, what glob, anchor text that must occur in the source of the function
+#    that holds the offending statement, reason)
 # ----------------------------------------------------------------------------------------------
+_CLOSED = ('guarded by `if multi_edges:`; multi_edges defaults to False, readGraph only forwards its own value and no caller '
+           'in the repository passes another one (closed world of the CLI entry points; a library user who passes '
+           'multi_edges=True gets the documented NotImplementedError)')
+_LABELS = ('argument-validation raise of a variable-group / graph accessor.  The output stage reaches it only through '
+           'all_variable_labels() -> label() -> indices() with an EMPTY pattern (the len(pattern)==0 branch) over the group\'s '
+           'own index domain; totality of label/indices on the own domain is the C11 proof (contracts/variables_groups.py). '
+           'Deciding it here would need values.')
 WAIVERS = [
+    ('*', 'raises', 'NotImplementedError@readGraph', 'if multi_edges:', _CLOSED),
+    ('*', 'raises', 'NotImplementedError@_process_graph_io_arguments', 'if multi_edges:', _CLOSED),
+    ('*', 'raises', 'RuntimeError@_process_graph_io_arguments', 'Unknown graph type argument',
+     'else-branch of an if/elif over dag|digraph / simple / bipartite that follows `if graph_type not in [those four]: raise ValueError`: unreachable'),
+    ('*', 'raises', 'RuntimeError@readGraph', '[Internal error] Format {} not implemented',
+     'else-branch after elif over dot/gml/kthlist/dimacs/matrix; file_format was validated by _process_graph_io_arguments '
+     'against <class>.supported_file_formats(), whose three implementations return subsets of these five names: unreachable'),
+    ('*', 'raises', 'RuntimeError@writeGraph', '[Internal error] Format {} not implemented',
+     'same as readGraph: file_format validated against supported_file_formats() before the elif chain: unreachable'),
+    ('*', 'raises', 'RuntimeError@VariableCompression', 'not supported for compression',
+     'else-branch after one_of_values(function, [xor, maj]) and both values handled: unreachable'),
+    ('cnfgen/utils/solver.py:*', 'raises', '*Error@to_dimacs_file', 'isinstance(fileorname, str)',
+     'to_dimacs() calls to_dimacs_file(self, StringIO(), export_header=False, export_varnames=False): the open() branch '
+     'needs a str file name (flag/type dependent path, not decidable without values)'),
+    ('cnfgen/formula/cnfio.py:CNFio.*', 'raises', '*Error@to_dimacs_file', 'isinstance(fileorname, str)',
+     'same: solve()/is_satisfiable() reach to_dimacs_file only through to_dimacs() with a StringIO'),
+    ('cnfgen/utils/solver.py:*', 'raises', 'ValueError@*.indices', 'raise ValueError',
+     'label enumeration is reached only under export_varnames=True; to_dimacs() passes export_varnames=False'),
+    ('cnfgen/utils/solver.py:*', 'raises', 'ValueError@*.label', 'raise ValueError',
+     'label enumeration is reached only under export_varnames=True; to_dimacs() passes export_varnames=False'),
+    ('cnfgen/utils/solver.py:*', 'raises', 'ValueError@BipartiteGraph.*_neighbors', 'raise ValueError',
+     'label enumeration is reached only under export_varnames=True; to_dimacs() passes export_varnames=False'),
+    ('cnfgen/utils/solver.py:*', 'raises', 'UnicodeEncodeError@_satsolve_*', 'F.to_dimacs().encode',
+     'to_dimacs() without header and variable names emits only "p cnf", digits, "-", blanks and newlines: pure ASCII'),
+    ('cnfgen/clitools/*', 'raises', 'ValueError@guess_output_format', 'fileformat_request can be either',
+     'cli passes args.output_format, restricted by argparse choices=[latex, dimacs, opb] (default None): all four values '
+     'return before the raise'),
+    ('cnfgen/clitools/*', 'raises', 'ValueError@*Variables.indices', 'raise ValueError', _LABELS),
+    ('cnfgen/clitools/*', 'raises', 'ValueError@*VariableGroup.indices', 'raise ValueError', _LABELS),
+    ('cnfgen/clitools/*', 'raises', 'ValueError@*Variables.label', 'raise ValueError', _LABELS),
+    ('cnfgen/clitools/*', 'raises', 'ValueError@BipartiteGraph.*_neighbors', 'raise ValueError', _LABELS),
 ]
 
 # ----------------------------------------------------------------------------------------------
@@ -289,12 +334,14 @@ EFFECT_CONTRACTS = [
          allowed=['ArgumentTypeError'], min_functions=4),
     dict(id='raises.actions', prop='C18', kind='raises-only',
          select={'argparse_actions': True},
-         clause='custom argparse Action.__call__ raise only CLIError (parser.error) or SystemExit',
-         allowed=['CLIError', 'SystemExit'], entry_all=True, min_functions=4),
+         clause='custom argparse Action.__call__ raise only CLIError (parser.error), SystemExit, or InternalBug/OSError (caught in main)',
+         allowed=['CLIError', 'SystemExit', 'InternalBug', 'OSError'], entry_all=True, min_functions=4,
+         note='InternalBug and OSError are caught in main(); FileNotFoundError is converted by the action itself'),
     dict(id='raises.graph_build', prop='C18', kind='raises-only',
          select={'files': 'cnfgen/clitools/graph_build.py', 'prefix': ['obtain_', 'modify_']},
-         clause='graph constructions of the command line raise only ValueError',
-         allowed=['ValueError'], min_functions=20),
+         clause='graph constructions of the command line raise only ValueError (their assert statements validate user '
+                'input: AssertionError must be caught too)',
+         allowed=['ValueError'], strict_asserts=True, min_functions=20),
     dict(id='raises.graph_spec', prop='C18', kind='raises-only',
          select={'functions': ['cnfgen/clitools/graph_args.py:parse_graph_argument',
                                'cnfgen/clitools/graph_args.py:obtain_graph',
